@@ -18,21 +18,28 @@ TRANSLATORS = ["conn"]
 MANIFEST = {
     "text": "Proof: Tls.Conn (statement-order Lean model of readAsync/_getMsg dispatch, send_keyupdate_request, "
             "_handle_keyupdate_request, PHA both sides, heartbeat, close, alerts; keys abstracted to a generation per direction) "
-            "satisfies, for every history of honest operations by either endpoint from a fresh connection: keys_in_step (every "
-            "in-flight record carries the generation its reader will hold on reaching it, writer and reader generations agree), "
-            "no_bad_record_mac, stream_fifo_control (returned ++ buffered ++ in flight = written) and delivered_is_prefix; decision "
-            "theorems heartbeat_echo_exact, heartbeat_response_to_callback, pha_chain_after_verify (chain recorded only after "
-            "CertificateVerify passed all checks and Finished verified) and unsolicited_control_fatal (model = the fatalDesc table). "
-            "Tie: seeded histories on live TLS 1.3 / TLS<=1.2 lab connections (simultaneous KeyUpdates, storms, buffered data across "
-            "KeyUpdate, min=0 reads, PHA with client certificate incl. seven tampered variants, heartbeat modes, fragmentation) with "
-            "every op compared with the model; direct FIFO / no-alert / HKDF-generation / KeyUpdate-answered-once / echo / PHA / "
-            "fatal-alert oracle on the implementation.",
-    "note": "Trusted: Lean kernel, the correspondence harness, hashlib/hmac for the independent HKDF chain. Records are atomic in the "
-            "model (one message per record; no handshake fragmentation across records); the AEAD is abstracted to 'accepted iff "
-            "generation matches' (C02). Observations recorded, not judged: an unsolicited heartbeat response is handed to the callback "
-            "(RFC 6520 asks to discard silently); close() with closeSocket=False refuses a PHA message still in flight with "
-            "unexpected_message; heartbeat messages larger than a user-lowered recordSize are fragmented.",
-    "technique": "Lean 4 invariant proof over all histories of the connection model; differential correspondence on live endpoints; direct oracle",
+            "satisfies, for every history of honest operations by either endpoint from a fresh connection: keys_in_step, "
+            "no_bad_record_mac, stream_fifo_control, delivered_is_prefix; at fragment level (Tls.Conn.reasm mirrors _getNextRecord + "
+            "defragmenter + the TLS 1.3 interleaving check): reassembly_inverts_fragmentation, keys_in_step_fragments and "
+            "stream_fifo_fragments for EVERY cutting of the in-flight handshake messages into records, interleaved_fragment_fatal; "
+            "decision theorems heartbeat_echo_exact, heartbeat_response_to_callback, pha_chain_after_verify, unsolicited_control_fatal "
+            "(incl. a KeyUpdate that does not end its record). Regenerated tie: translate/gen_conn.py reads allowedTypes/allowedHsTypes "
+            "per role, the isinstance dispatch chain, try_once re-arming, _sendError call sites and the KeyUpdate order of effects from "
+            "the AST; gen_read_allowed_matches_model, gen_read_filter_probe, gen_read_dispatch_matches_model, "
+            "gen_keyupdate_order_matches_model, gen_send_error_sites_match_model tie them to the model by kernel evaluation. Tie by "
+            "correspondence: seeded histories on live TLS 1.3 / TLS<=1.2 lab connections (simultaneous KeyUpdates, storms, buffered data "
+            "across KeyUpdate, min=0 reads, PHA incl. seven tampered variants, heartbeat modes incl. a maximum-size heartbeat, "
+            "recordSize 3/4/5/64/300 so that KeyUpdate, CertificateRequest and Certificate are split over several records, "
+            "record_size_limit negotiated, makefile references) every op compared with the model; fragment catalogue (pieces of a "
+            "NewSessionTicket interleaved with data / heartbeat / alert) vs reasm; direct FIFO / no-alert / HKDF-generation / "
+            "KeyUpdate-answered-once / echo / PHA / fatal-alert oracle.",
+    "note": "Trusted: Lean kernel, the translator translate/gen_conn.py (poison on unrecognised shapes), the correspondence harness, "
+            "hashlib/hmac for the independent HKDF chain. The AEAD is abstracted to 'accepted iff generation matches' (C02). In the "
+            "history model a message travels as one channel element; the fragment level is a separate layer related to it by the "
+            "reassembly theorem (honest fragmentation is transparent; heartbeats are not reassembled and are kept within one record). "
+            "Observations recorded, not judged: an unsolicited heartbeat response is handed to the callback; close() with "
+            "closeSocket=False refuses a PHA message still in flight; heartbeats larger than a user-lowered recordSize are fragmented.",
+    "technique": "Lean 4 invariant proof over all histories and all fragmentations; kernel-decided ties to tables regenerated from the source; differential correspondence on live endpoints; direct oracle",
 }
 
 FATAL_EXPECT = {
